@@ -171,10 +171,20 @@ class BaseConstructor:
 class SafeConstructor(BaseConstructor):
 
     def construct_scalar(self, node):
-        if isinstance(node, MappingNode):
+        # Follow the `=` (value) entries of mappings.  The node graph may be
+        # cyclic (`&a {=: *a}`), so remember the mappings already visited.
+        visited = set()
+        while isinstance(node, MappingNode):
+            if node in visited:
+                raise ConstructorError(None, None,
+                        "found unconstructable recursive node", node.start_mark)
+            visited.add(node)
             for key_node, value_node in node.value:
                 if key_node.tag == 'tag:yaml.org,2002:value':
-                    return self.construct_scalar(value_node)
+                    node = value_node
+                    break
+            else:
+                break
         return super().construct_scalar(node)
 
     def flatten_mapping(self, node):
